@@ -126,15 +126,16 @@ theorem C07_G_token_unique_partial (tbl : Table) (attached : Bool) (nw nc : Nat)
   have h := (GInv.init tbl attached nw nc).exec trs hwf
   exact ⟨h.uniq, h.freshW, h.freshS⟩
 
-/-- non-vacuity: a real run (the leak witness run of C12) satisfies the hypothesis and ends in
-    a state that does hold a token -/
-example : (∀ t ∈ leakRun, t.wf) ∧ Tok ⟨0, 0, 0⟩ ((Net.initFlat leakTable false 1 1).exec leakRun) = 1 := by
+/-- non-vacuity: a real run (the client-cancel run of C12) satisfies the hypothesis and, after
+    its first nine transitions, is in a state that does hold a token (the child task in a
+    SUBMIT_BATCH message on its way to the worker) -/
+example : (∀ t ∈ leakRun, t.wf)
+    ∧ Tok ⟨0, 0, 0⟩ ((Net.initFlat leakTable false 1 1).exec (leakRun.take 9)) = 1 := by
   refine ⟨?_, by decide +kernel⟩
   intro t ht
   simp only [leakRun, List.mem_cons, List.mem_nil_iff, or_false] at ht
   rcases ht with rfl | rfl | rfl | rfl | rfl | rfl | rfl | rfl | rfl | rfl | rfl | rfl | rfl | rfl <;>
     first | trivial | (intro a; rfl)
-
 
 /-- **Every task body is started at most once** (flat topology, all schedules): in the event
     log of any run of the network model - any table, any number of workers and clients, any
